@@ -36,3 +36,36 @@ contract(L + "_register_velocity_change_leaf_cnode", "C12", model="R",
          canary="leaf_cnode.parent is None", native_search=False,
          note="C12.1 for two-level trees; for deeper trees the code scales its ARGUMENT by the parents' weights instead of "
               "the accumulated change (latent, see DESIGN section 6 observations) - outside this contract's precondition")
+
+# ---- the same hand-over inside / between composite objects (two-level branches: leaf -> root with weight one)
+contract("jellyfysh.event_handler.abstracts.abstracts:SingleActiveLeafUnitEventHandler._exchange_velocity",
+         ["C07", "C12"], model="R", tag="handover2", params={"cnode_with_active_unit": "Node", "target_cnode": "Node"},
+         globals=["dimension"],
+         inline=["_register_velocity_change_leaf_cnode"],
+         requires=["cnode_with_active_unit.parent is not None", "target_cnode.parent is not None",
+                   "cnode_with_active_unit.parent.parent is None", "target_cnode.parent.parent is None",
+                   "cnode_with_active_unit.parent.value is not None", "target_cnode.parent.value is not None",
+                   "node_weight(cnode_with_active_unit.parent) == 1", "node_weight(target_cnode.parent) == 1",
+                   "self._leaf_units is not None", "cnode_with_active_unit.value is not None", "target_cnode.value is not None",
+                   "self._non_leaf_velocity_changes is not None",
+                   "implies(cnode_with_active_unit.value.velocity is not None, len(cnode_with_active_unit.value.velocity) == 3)",
+                   # identifiers of the leaves are not those of the roots; nothing is pending for the leaves
+                   "not same(cnode_with_active_unit.value.identifier, cnode_with_active_unit.parent.value.identifier)",
+                   "not same(cnode_with_active_unit.value.identifier, target_cnode.parent.value.identifier)",
+                   "not same(target_cnode.value.identifier, cnode_with_active_unit.parent.value.identifier)",
+                   "not same(target_cnode.value.identifier, target_cnode.parent.value.identifier)",
+                   "not has(self._non_leaf_velocity_changes, cnode_with_active_unit.value.identifier)",
+                   "not has(self._non_leaf_velocity_changes, target_cnode.value.identifier)",
+                   "forall(lambda k: implies(has(self._non_leaf_velocity_changes, obj(k, 'list[int]')), "
+                   "len(get(self._non_leaf_velocity_changes, obj(k, 'list[int]'))) == 3 and "
+                   "not same(get(self._non_leaf_velocity_changes, obj(k, 'list[int]')), cnode_with_active_unit.value.velocity)))"],
+         may_raise={"AssertionError": []},
+         modifies=["self._non_leaf_velocity_changes", "dictof(self._non_leaf_velocity_changes)", "ALL.velocity", "ALL.time_stamp", "allcontents(float)"],
+         ensures=[
+             "same(target_cnode.value.velocity, old(cnode_with_active_unit.value.velocity))",
+             "target_cnode.value.velocity is not None",
+             "forall(0, 3, lambda d: target_cnode.value.velocity[d] == old(cnode_with_active_unit.value.velocity[d]))",
+             "same(target_cnode.value.time_stamp, old(cnode_with_active_unit.value.time_stamp))",
+             "cnode_with_active_unit.value.velocity is None and cnode_with_active_unit.value.time_stamp is None"],
+         canary="target_cnode.value.velocity is None", native_search=False, ghost={"unit_only": True},
+         note="C07/C12: a lifting between point masses of composite objects hands the velocity over unchanged")
